@@ -459,3 +459,95 @@ Theorem unrolled_of_acyclic c v w :
 Proof.
   intros Hcl Hfr Hnm Hac Hv Hw Hin. eapply (unrolled_stable c []); eauto using cut_acyclic_nil; set_solver.
 Qed.
+
+(* ---------- 8. the closed form is acyclic ---------- *)
+Section acyclic_closed_form.
+  Context (c : circuit) (F : list string) (r : string → nat) (R : nat).
+  Let Fs : gset string := list_to_set F.
+  Let k := length F.
+  Let W := R + 2.
+  Context (Hcl : closed c) (HF : ∀ f, f ∈ F → f ∈ dom c) (Hnd : NoDup (unrolled_nodes c F).*1).
+  Context (HR : ∀ m, m ∈ dom c → r m ≤ R).
+  Context (Hr : ∀ n info g, c !! n = Some info → g ∈ n_fi info → g ∉ Fs → r g < r n).
+
+  Definition ranked : list (string * nat) :=
+    (((λ n, (n, 0)) <$> elements (inputs c)) ++
+     (i ← seq 0 (S k); ((λ p : string * ninfo, (pre (cn i) p.1, i * W + 1 + r p.1)) <$> map_to_list c) ++ ((λ f, (pre (cn i) (aux f), i * W)) <$> F)) ++
+     ((λ o, (o, S k * W)) <$> elements (outputs c ∖ inputs c)))%list.
+  Lemma ranked_keys : ranked.*1 = (unrolled_nodes c F).*1.
+  Proof.
+    unfold ranked, unrolled_nodes. rewrite !fmap_app.
+    assert (E1 : ((λ n : string, (n, 0)) <$> elements (inputs c)).*1 = (top_nodes c).*1).
+    { unfold top_nodes. by rewrite <- !list_fmap_compose. }
+    assert (E3 : ((λ o : string, (o, S k * W)) <$> elements (outputs c ∖ inputs c)).*1 = (out_nodes c (length F)).*1).
+    { unfold out_nodes. by rewrite <- !list_fmap_compose. }
+    assert (E2 : ∀ l : list nat,
+      (i ← l; (((λ p : string * ninfo, (pre (cn i) p.1, i * W + 1 + r p.1)) <$> map_to_list c) ++ ((λ f, (pre (cn i) (aux f), i * W)) <$> F))%list).*1 =
+      (i ← l; (copy_nodes c (list_to_set F) i ++ aux_nodes F i)%list).*1).
+    { induction l as [|i l IH]; [done|]. rewrite !bind_cons, !fmap_app, IH. unfold copy_nodes, aux_nodes.
+      by rewrite <- !list_fmap_compose. }
+    fold k. by rewrite E1, E2, E3.
+  Qed.
+  Definition rk (x : string) : nat := default 0 ((list_to_map ranked : gmap string nat) !! x).
+  Lemma rk_of x q : (x, q) ∈ ranked → rk x = q.
+  Proof.
+    intros H. unfold rk. assert ((list_to_map ranked : gmap string nat) !! x = Some q) as ->; [|done].
+    apply elem_of_list_to_map; [|done]. by rewrite ranked_keys.
+  Qed.
+  Lemma rk_top n : n ∈ inputs c → rk n = 0.
+  Proof. intros Hn. apply rk_of. unfold ranked. apply elem_of_app. left. apply elem_of_list_fmap. exists n. split; [done|by apply elem_of_elements]. Qed.
+  Lemma rk_copy i m : i ≤ k → m ∈ dom c → rk (pre (cn i) m) = i * W + 1 + r m.
+  Proof.
+    intros Hi [info Hm]%elem_of_dom. apply rk_of. unfold ranked. apply elem_of_app. right. apply elem_of_app. left.
+    apply elem_of_list_bind. exists i. split; [|apply elem_of_seq; lia].
+    apply elem_of_app. left. apply elem_of_list_fmap. exists (m, info). split; [done|by apply elem_of_map_to_list].
+  Qed.
+  Lemma rk_aux i f : i ≤ k → f ∈ F → rk (pre (cn i) (aux f)) = i * W.
+  Proof.
+    intros Hi Hf. apply rk_of. unfold ranked. apply elem_of_app. right. apply elem_of_app. left.
+    apply elem_of_list_bind. exists i. split; [|apply elem_of_seq; lia].
+    apply elem_of_app. right. apply elem_of_list_fmap. by exists f.
+  Qed.
+  Lemma rk_out o : o ∈ outputs c → o ∉ inputs c → rk o = S k * W.
+  Proof.
+    intros Ho Hi. apply rk_of. unfold ranked. apply elem_of_app. right. apply elem_of_app. right.
+    apply elem_of_list_fmap. exists o. split; [done|]. apply elem_of_elements. set_solver.
+  Qed.
+
+  Lemma unrolled_acyclic_aux : acyclic (unrolled c F).
+  Proof.
+    exists rk. intros x j g Hx Hg. apply unrolled_lookup in Hx; [|done].
+    assert (HW : W = R + 2) by reflexivity. clearbody W.
+    apply in_unrolled_inv in Hx as [(n & Hn & -> & ->)|[(i & m & info & Hi & Hm & -> & ->)|[(f & Hf & -> & ->)|[(i & f & Hi & Hf & -> & ->)|(o & Ho & Hoi & -> & ->)]]]].
+    - simpl in Hg. set_solver.
+    - assert (Hmd : m ∈ dom c) by (apply elem_of_dom; eauto).
+      rewrite (rk_copy i m) by done. unfold copy_info in Hg. case_bool_decide as Hty; simpl in Hg.
+      + apply elem_of_singleton in Hg as ->. rewrite rk_top; [lia|]. apply elem_of_inputs. eauto.
+      + apply elem_of_map in Hg as (g0 & -> & Hg0). assert (g0 ∈ dom c) by (eapply Hcl; eauto).
+        unfold subst. case_bool_decide as HgF.
+        * assert (g0 ∈ F) as HgF' by (unfold Fs in HgF; set_solver). rewrite (rk_aux i g0) by done. lia.
+        * rewrite rk_copy by done. pose proof (Hr m info g0 Hm Hg0 HgF). lia.
+    - simpl in Hg. set_solver.
+    - simpl in Hg. apply elem_of_singleton in Hg as ->.
+      rewrite (rk_aux (S i) f) by done. rewrite (rk_copy i f); [|lia|by apply HF]. pose proof (HR f (HF f Hf)). lia.
+    - simpl in Hg. apply elem_of_singleton in Hg as ->.
+      assert (o ∈ dom c) by (apply elem_of_outputs in Ho as (i' & Hi' & _); apply elem_of_dom; eauto).
+      rewrite (rk_out o) by done. rewrite (rk_copy (length F) o); [|unfold k; lia|done]. pose proof (HR o H). fold k. lia.
+  Qed.
+End acyclic_closed_form.
+
+Theorem unrolled_acyclic c F : closed c → NoDup (unrolled_nodes c F).*1 → (∀ f, f ∈ F → f ∈ dom c) →
+  cut_acyclic c F → acyclic (unrolled c F).
+Proof.
+  intros Hcl Hnd HF [r Hr].
+  assert (HB : ∃ B, ∀ n, n ∈ dom c → r n ≤ B).
+  { clear. induction c as [|n i m Hn IH] using map_ind.
+    - exists 0. set_solver.
+    - destruct IH as [B HB]. exists (max B (r n)). intros x. rewrite dom_insert, elem_of_union, elem_of_singleton.
+      intros [->|Hx]; [lia|]. specialize (HB x Hx). lia. }
+  destruct HB as [R HR].
+  apply (unrolled_acyclic_aux c F r R Hcl HF Hnd HR).
+  intros n info g Hn Hg HgF. eapply (Hr n (upd_fi (λ s, s ∖ list_to_set F) info) g).
+  - unfold cut_nodes. by rewrite lookup_fmap, Hn.
+  - simpl. set_solver.
+Qed.
